@@ -50,13 +50,15 @@ pub struct Profile {
     pub max_data: u64,
     pub tiny_windows: bool,
     pub small_limits: bool,
+    pub recv_heavy: bool,
 }
 
 pub fn profile(name: &str) -> Profile {
-    let base = Profile { name: "mixed", w_conn_poll: 30, w_peer: 30, w_app: 40, w_io: 3, w_chaos: 0, w_end: 1, max_data: 3000, tiny_windows: false, small_limits: false };
+    let base = Profile { name: "mixed", w_conn_poll: 30, w_peer: 30, w_app: 40, w_io: 3, w_chaos: 0, w_end: 1, max_data: 3000, tiny_windows: false, small_limits: false, recv_heavy: false };
     match name {
         "flow" => Profile { name: "flow", tiny_windows: true, max_data: 400, w_io: 6, ..base },
         "limits" => Profile { name: "limits", small_limits: true, max_data: 200, ..base },
+        "recv" => Profile { name: "recv", recv_heavy: true, max_data: 1200, w_peer: 40, w_app: 45, w_conn_poll: 25, ..base },
         "chaos" => Profile { name: "chaos", w_chaos: 12, ..base },
         "reset" => Profile { name: "reset", max_data: 500, ..base },
         "shutdown" => Profile { name: "shutdown", w_end: 6, ..base },
@@ -67,7 +69,10 @@ pub fn profile(name: &str) -> Profile {
 pub fn gen_config(rng: &mut Rng, client: bool, p: &Profile) -> Config {
     let mut c = Config::default_client();
     c.role_client = client;
-    if p.tiny_windows {
+    if p.recv_heavy {
+        c.initial_window_size = Some(*rng.pick(&[100u32, 1000, 3000, 10000, 65535]));
+        if rng.chance(1, 2) { c.initial_connection_window_size = Some(*rng.pick(&[65535u32, 70000, 100000])); }
+    } else if p.tiny_windows {
         c.initial_window_size = Some(*rng.pick(&[0u32, 1, 10, 100, 500, 1000, 65535]));
         c.initial_connection_window_size = if rng.chance(1, 2) { Some(*rng.pick(&[65535u32, 66000, 70000, 100000])) } else { None };
         let iw = *rng.pick(&[0u32, 1, 7, 50, 300, 1000, 65535]);
@@ -259,7 +264,8 @@ pub fn gen_peer(rng: &mut Rng, d: &Driver, pv: &mut PeerView, p: &Profile) -> Op
         return Some(peer_bytes(wire::ping(true, a), json!({"t":"PING","ack":true})));
     }
     let live: Vec<usize> = pv.streams.iter().enumerate().filter(|(_, s)| !s.reset).map(|(i, _)| i).collect();
-    let choice = rng.below(100);
+    let mut choice = rng.below(100);
+    if p.recv_heavy && rng.chance(1, 2) { choice = 33 + rng.below(27); }
     match choice {
         0..=17 => {
             // open a new stream (server role) / push (client role, rarely)
@@ -445,6 +451,21 @@ pub fn gen_app(rng: &mut Rng, d: &Driver, p: &Profile) -> Option<Value> {
         return if d.conn_woken() { Some(json!({"op":"poll_accept"})) } else { None };
     }
     if nh == 0 { return None; }
+    if p.recv_heavy && rng.chance(1, 2) {
+        let cands: Vec<usize> = (0..nh).filter(|&i| d.handles[i].recv.is_some() && !d.handles[i].recv_done).collect();
+        if !cands.is_empty() {
+            let h = *rng.pick(&cands);
+            let hd = &d.handles[h];
+            if hd.unreleased > 0 && rng.chance(1, 2) {
+                let n = if rng.chance(2, 3) { hd.unreleased } else { rng.range(1, hd.unreleased) };
+                return Some(json!({"op":"release","h":h,"n":n}));
+            }
+            return Some(json!({"op":"poll_data","h":h}));
+        }
+        // no receive half yet: try to obtain one
+        let c2: Vec<usize> = (0..nh).filter(|&i| d.handles[i].resp.is_some()).collect();
+        if !c2.is_empty() { let h = *rng.pick(&c2); return Some(json!({"op":"poll_response","h":h})); }
+    }
     // prefer recent handles
     let h = if rng.chance(2, 3) { nh - 1 - (rng.below(nh.min(4) as u64) as usize) } else { rng.below(nh as u64) as usize };
     let hd = &d.handles[h];
